@@ -304,10 +304,10 @@ func init() {
 func init() {
 	reg(&propCfg{
 		ID:      "C11",
-		Pkgs:    []string{"cbc", "l10n", "cal"},
-		Lenient: []string{"cbc", "l10n", "cal"},
+		Pkgs:    []string{"cbc", "l10n", "cal", "tax", "regimes/es"},
+		Lenient: []string{"cbc", "l10n", "cal", "tax", "regimes/es", "regimes/common", "num", "i18n"},
 		Stages:  []stage{{Name: "leaf-conformance", Harness: `^H_C11_`}},
-		Functions: []string{"cbc.Key.Validate", "cbc.Code.Validate", "l10n.Code.Validate", "cal.Date.Validate / IsZero / String", "cal.DateTime.Validate / IsZero / String", "validation.Match / Length rules (real code over the modelled reflection leaves)"},
+		Functions: []string{"cbc.Key.Validate", "cbc.Code.Validate", "l10n.Code.Validate", "cal.Date.Validate / IsZero / String", "cal.DateTime.Validate / IsZero / String", "validation.Match / Length rules (real code over the modelled reflection leaves)", "tax.(*Combo).ValidateWithContext (category code, with and without a regime)"},
 		Stubs: []string{"regexp matching: NFA from the pattern string in the package initialiser", "civil.Date.IsValid / civil.Time.IsValid: Gregorian calendar formula / field ranges for symbolic values", "fmt.Sprintf %04d / %02d: Go model",
 			"the published schema files data/schemas/{cbc/key,cbc/code,l10n/code,cal/date,cal/date-time}.json are read at run time as the oracle (pattern, minLength, maxLength, format)"},
 		Bounds: map[string][]string{
